@@ -300,3 +300,174 @@ def replay(run, path):
         log("VIOLATION property=%s replay=%s" % (r.get("property"), path))
         return 1
     return 0
+
+
+# ---------------------------------------------------------------- generic stateful family pipeline
+def gen_family(run, module, setname, out_path, timeout=1800):
+    cfg = write_cfg(run, "%s_%s.cfg" % (module, setname),
+                    'INIT Init\nNEXT Next\nINVARIANT SelfConsistent\nINVARIANT Emit\nCHECK_DEADLOCK FALSE\n'
+                    'CONSTANTS Set = "%s" Tier = "%s"\n' % (setname, run.tier))
+    return run.gen(module, cfg, out_path, timeout=timeout)
+
+
+def trace_lines(path):
+    with open(path) as f:
+        return f.readlines()
+
+
+def mc(run, module, cfg, expect_violation=False, workers=4, timeout=1800, xmx="4g"):
+    """phase A: design-level model checking.  A failing reference model is a broken specification
+    (exit 2); a non-vacuity configuration must produce a counterexample."""
+    r = run.tlc(module, cfg, workers=workers, timeout=timeout, xmx=xmx, check=False)
+    if expect_violation:
+        if "is violated" not in r["stdout"]:
+            raise Infra("non-vacuity configuration %s/%s found no counterexample:\n%s" % (module, cfg, r["stdout"][-3000:]))
+    elif not r["ok"]:
+        raise Infra("design-level model %s/%s does not satisfy its properties (specification error):\n%s" % (module, cfg, r["stdout"][-5000:]))
+    log("[mc] %s/%s: %d distinct states, %d generated, %.1fs%s" % (module, cfg, r["states"], r["transitions"], r["wall"],
+                                                                  " (counterexample as expected)" if expect_violation else ""))
+    return r
+
+
+# ---------------------------------------------------------------- registers family
+ACCS_PLAIN = ["Uint16", "Int16", "Register", "Uint32", "Int32", "Float32", "Uint64", "Int64", "Float64"]
+ACCS_ORDER = ["Uint32WithByteOrder", "Int32WithByteOrder", "Float32WithByteOrder", "Uint64WithByteOrder", "Int64WithByteOrder",
+              "Float64WithByteOrder", "DoubleRegister", "QuadRegister"]
+
+
+def regs_confirm(run, trace, fresh):
+    lines = None
+    state = {"n": 0}
+
+    def confirm(v):
+        nonlocal lines
+        if lines is None:
+            lines = trace_lines(trace)
+        state["n"] += 1
+        if state["n"] > 15:
+            return "confirmed"
+        i = v["line"]
+        j = i
+        while j >= 0 and '"ev":"reset"' not in lines[j]:
+            j -= 1
+        if j < 0:
+            return "confirmed"
+        rs = json.loads(lines[j])
+        e = v["event"]
+        if e["ev"] == "range":
+            case = {"op": "sweep", "start": rs["start"], "payload": rs["payload"], "def": rs["def"], "from": e["from"], "to": e["to"],
+                    "calls": [{k: e[k] for k in ("acc", "order", "len", "bit", "high")} | {"addr": 0}]}
+        elif e["ev"] == "call":
+            calls = []
+            rng = range(j + 1, i + 1) if not fresh else [i]
+            for k in rng:
+                ek = json.loads(lines[k])
+                if ek.get("ev") == "call":
+                    calls.append({x: ek[x] for x in ("acc", "addr", "order", "len", "bit", "high")})
+            case = {"op": "window", "start": rs["start"], "payload": rs["payload"], "def": rs["def"], "calls": calls, "fresh": fresh}
+        else:
+            return "confirmed"
+        cp, tp = run.path("confirm-%d.cases" % state["n"]), run.path("confirm-%d.trace" % state["n"])
+        with open(cp, "w") as f:
+            f.write(json.dumps(case) + "\n")
+        run.drive("regs", cp, tp)
+        vs, _ = run.validate("Trace_Regs", "Trace_Regs.cfg", tp, shards=1)
+        v["context"] = {"replay_case": case, "family": "regs", "trace_spec": "Trace_Regs"}
+        return "confirmed" if any(x["verdict"] == v["verdict"] for x in vs) else "unreproduced"
+    return confirm
+
+
+def regs_pipeline(run, setname, extra_cases, rule, assumptions, fresh, mcs):
+    cases, trace = run.path("cases.ndjson"), run.path("trace.ndjson")
+    open(cases, "w").close()
+    for module, cfg, expect in mcs:
+        mc(run, module, cfg, expect_violation=expect)
+    ngen = gen_family(run, "Gen_Regs", setname, cases)
+    nextra = append_cases(cases, extra_cases)
+    run.drive("regs", cases, trace)
+    verdicts, nev = run.validate("Trace_Regs", "Trace_Regs.cfg", trace, resync_key='"ev":"reset"')
+    kn, viol = vlib.settle(run, verdicts)
+    ops = vlib.count_ops(trace, key="ev")
+    cov = {
+        "states": run.tlc_stats["states"], "transitions": run.tlc_stats["transitions"],
+        "traces_validated_against_impl": ops.get("reset", 0),
+        "evaluations": nev, "distinct_nontrivial": count_where(trace, lambda e: e.get("ev") in ("call", "range", "extract")),
+        "rule": rule, "spec_generated_cases": ngen, "harness_sweep_cases": nextra, "events_by_kind": ops,
+        "samples": vlib.sample_lines(trace, 3), "exhaustive": False,
+    }
+    return vlib.finish(run, "model_checking", cov, assumptions, kn, viol, confirm=regs_confirm(run, trace, fresh))
+
+
+def pay(count):
+    return [((i * 7 + 3) % 251) + 1 for i in range(1, 2 * count + 1)]
+
+
+@check("C04")
+def c04(run):
+    T = run.tier == "thorough"
+    ex = []
+    tm = []
+    for a in ACCS_PLAIN:
+        tm.append({"acc": a, "addr": 0, "order": 0, "len": 0, "bit": 0, "high": 0})
+    for a in ACCS_ORDER:
+        for o in ((5, 9, 6, 10) if T else (5, 10)):
+            tm.append({"acc": a, "addr": 0, "order": o, "len": 0, "bit": 0, "high": 0})
+    for a in ("Byte", "Uint8", "Int8"):
+        tm.append({"acc": a, "addr": 0, "order": 0, "len": 0, "bit": 0, "high": 1})
+    tm.append({"acc": "Bit", "addr": 0, "order": 0, "len": 0, "bit": 9, "high": 0})
+    for ln in ((1, 2, 3, 4, 7, 8, 9, 255) if T else (1, 2, 3, 8)):
+        tm.append({"acc": "String", "addr": 0, "order": 0, "len": ln, "bit": 0, "high": 0})
+        tm.append({"acc": "StringWithByteOrder", "addr": 0, "order": 6, "len": ln, "bit": 0, "high": 0})
+    wins = []
+    for cnt in ((1, 2, 3, 4) if T else (1, 4)):
+        for st in ((0, 65536 - cnt, 65535 - cnt, 32768 - cnt, 32768) if T else (0, 65536 - cnt)):
+            wins.append((st, cnt))
+    for st, cnt in wins:
+        if T:
+            ex.append({"op": "sweep", "start": st, "payload": pay(cnt), "def": 9, "calls": tm, "from": 0, "to": 65535})
+        else:
+            ex.append({"op": "sweep", "start": st, "payload": pay(cnt), "def": 9, "calls": tm, "from": 0, "to": 2000})
+            ex.append({"op": "sweep", "start": st, "payload": pay(cnt), "def": 9, "calls": tm, "from": 31000, "to": 34000})
+            ex.append({"op": "sweep", "start": st, "payload": pay(cnt), "def": 9, "calls": tm, "from": 63500, "to": 65535})
+    return regs_pipeline(
+        run, "c04", ex,
+        rule="windows (start x count x default order, incl. windows ending at 65535) x 23 accessors x byte/word orders x probe addresses chosen by the "
+             "SPECIFICATION (window +-5, 0, 65535, start+32768 wrap probes) x string lengths; plus harness sweeps of every address for small windows with refusals "
+             "logged as ranges; payload bytes pairwise distinct inside a sentinel-filled larger buffer; non-trivial = every call/range event (value compared or refusal demanded)",
+        assumptions=["byte/word order conventions are the library's documented table (checked as DocExample in the spec)",
+                     "numeric conversion from bit pattern to float/int (a Go cast) is trusted; the bit pattern is checked",
+                     "DoubleRegister/QuadRegister are exercised with the four named orders only"],
+        fresh=True, mcs=[("MC_Registers", "MC_Registers_Ref.cfg", False)])
+
+
+@check("C13")
+def c13(run):
+    T = run.tier == "thorough"
+    rnd = random.Random(run.seed)
+    ex = []
+    calls = [
+        {"acc": "Uint16", "addr": 100, "order": 0, "len": 0, "bit": 0, "high": 0},
+        {"acc": "StringWithByteOrder", "addr": 100, "order": 9, "len": 4, "bit": 0, "high": 0},
+        {"acc": "StringWithByteOrder", "addr": 101, "order": 6, "len": 3, "bit": 0, "high": 0},
+        {"acc": "Uint32WithByteOrder", "addr": 100, "order": 5, "len": 0, "bit": 0, "high": 0},
+        {"acc": "Uint64WithByteOrder", "addr": 101, "order": 10, "len": 0, "bit": 0, "high": 0},
+        {"acc": "Float32WithByteOrder", "addr": 103, "order": 0, "len": 0, "bit": 0, "high": 0},
+        {"acc": "Bit", "addr": 102, "order": 0, "len": 0, "bit": 3, "high": 0},
+        {"acc": "Byte", "addr": 104, "order": 0, "len": 0, "bit": 0, "high": 1},
+        {"acc": "StringWithByteOrder", "addr": 103, "order": 0, "len": 5, "bit": 0, "high": 0},
+        {"acc": "Int16", "addr": 105, "order": 0, "len": 0, "bit": 0, "high": 0},
+    ]
+    for _ in range(400 if T else 60):
+        idx = list(range(len(calls)))
+        rounds = []
+        for _ in range(3):
+            rnd.shuffle(idx)
+            rounds.append(list(idx[:rnd.randint(1, len(idx))]))
+        ex.append({"op": "extract", "start": 100, "payload": pay(5), "calls": calls, "rounds": rounds})
+    return regs_pipeline(
+        run, "c13", ex,
+        rule="ALL call histories of length 1..3 (thorough: 1..4 over the first 10) over 18 representative accessor calls (overlapping string / 16 / 32 / 64-bit reads, both "
+             "string byte orders) on one shared window, plus ExtractFields rounds with seeded field orders on one shared response; after every call the driver snapshots the payload; "
+             "non-trivial = every call/extract event (result compared with the value of the ORIGINAL payload and snapshot compared with it)",
+        assumptions=["payload content: one pairwise-distinct pattern and one with NUL bytes"],
+        fresh=False, mcs=[("MC_Registers", "MC_Registers_Ref.cfg", False), ("MC_Registers", "MC_Registers_Swap.cfg", True)])
